@@ -1,8 +1,8 @@
-\* C14 quick: 9 kind spellings x 5 extents (incl. empty and backwards ranges) x 11 metric value shapes x 3 aggregations x the 8 signal
-\* subsets = 11880 abstract events, each an initial state of the emit path; replayed over HTTP/protobuf, HTTP/JSON+gzip, gRPC+gzip.
+\* C14 quick: 19 kind spellings/value forms (7 forms each of span and metric) x 5 extents (incl. empty and backwards ranges) x 11 metric value shapes x 3 aggregations x the 8 signal
+\* subsets = 25080 abstract events, each an initial state of the emit path; replayed over HTTP/protobuf, HTTP/JSON+gzip, gRPC+gzip.
 SPECIFICATION Spec
 CONSTANTS
-    Kinds = {"absent", "span", "metric", "SPAN", "padMetric", "other", "int", "typedSpan", "typedMetric"}
+    Kinds = {"absent", "other", "int", "SPAN", "padMetric", "span", "typedSpan", "spanTypedOwned", "spanStrOwned", "spanDisplay", "spanFromDisplay", "spanString", "metric", "typedMetric", "metricTypedOwned", "metricStrOwned", "metricDisplay", "metricFromDisplay", "metricString"}
     Extents = {"none", "point", "range", "emptyRange", "backRange"}
     Vals = {"i64", "f64", "u64big", "seqi", "seqf", "emptySeq", "nestedSeq", "textSeq", "text", "bool", "missing"}
     Aggs = {"count", "last", "missing"}
